@@ -55,6 +55,10 @@ def main(argv=None) -> int:
         print(f"ANALYSIS-ERROR property={pid} cannot load check: {e}")
         return 2
     level = getattr(mod, "LEVEL", "other")
+    if args.tier == "thorough":
+        from . import dag
+
+        dag.K_MULT = 4      # four times as many independent random interpretations for every identity test
     return run_check(pid, lambda chk: mod.run(chk), args.tier, seed, level, only)
 
 
